@@ -3,7 +3,7 @@ from .. import engine, canon
 from ..scn import Rng
 
 CHAIN = os.path.join(engine.HARNESS, 'target', 'debug', 'chain')
-DRIVER = os.path.join(engine.LEAN, '.lake', 'build', 'bin', 'driver')
+DRIVER = os.environ.get('VERIF_DRIVER') or os.path.join(engine.LEAN, '.lake', 'build', 'bin', 'driver')
 
 def gen_seq(rng, name, via, nops, mut_chance):
     lines = [f"scenario {name}", f"via {via}"]
@@ -28,7 +28,7 @@ class Check:
                 "after every further operation (serial + address distinctness) and the drop log is compared per operation "
                 "with the Lean model; long chains (thousands of values); a chain of 5000 values released by one make_mut on a thread with a 48 KiB stack, in its own process (the release must not recurse per node); concurrent: 2-4 threads lending through one shared "
                 "&ValueChain / &Unimock under the controlled scheduler (yield before every try_insert), ALL schedules up to the "
-                "cap, judged by: each reference reads its own serial, earlier references intact, addresses distinct, nothing "
+                "cap, each replayed on the Lean race model (chain order, attempts per thread) and judged by: each reference reads its own serial, earlier references intact, addresses distinct, nothing "
                 "dropped before teardown, everything dropped exactly once at teardown. non-trivial = sequence with >= 2 "
                 "references alive across a further operation, or a schedule set with > 1 schedule")
 
@@ -94,13 +94,23 @@ class Check:
                 texts.append(f"scenario stress_{via}\nvia {via}\nstress threads=8 per=150 rounds={rounds}\nend\n")
         text = ''.join(texts)
         cap = 3000 if tier == 'quick' else 200000
-        p = subprocess.run([CHAIN], input=text, capture_output=True, text=True, env=dict(os.environ, SCHED_CAP=str(cap)), timeout=3000)
+        p = subprocess.run([CHAIN], input=text, capture_output=True, text=True, env=dict(os.environ, SCHED_CAP=str(cap), CHAIN_TRACE='1'), timeout=3000)
         if p.returncode != 0:
             path = engine.write_replay(self.prop, 'toolerror', text[:5000], [f"chain harness exited {p.returncode}: {p.stderr[-800:]}"])
             rep.violation(path, f"value-chain run crashed (exit {p.returncode}): {p.stderr[-200:]}", no_input=True)
             rep.coverage.update({'evaluations': 0, 'distinct_nontrivial': 0, 'rule': self.rule(), 'samples': []})
             return rep.finish()
         real, order = canon.split_scenarios(p.stdout)
+        race_rows = []      # (scenario, picks, order, attempts, othertags)
+        for nme in order:
+            keep = []
+            for l in real[nme]:
+                mm = re.match(r'rsched picks=(\S*) order=(\S*) attempts=(\S*) othertags=(\d+)$', l)
+                if mm:
+                    race_rows.append((nme,) + mm.groups())
+                else:
+                    keep.append(l)
+            real[nme] = keep
         m = subprocess.run([DRIVER], input=text, capture_output=True, text=True, timeout=3000)
         model, _ = canon.split_scenarios(m.stdout)
         per_text = {}
@@ -201,6 +211,29 @@ class Check:
                 nontriv += 1
             if len(samples) < 3 and len(r) < 12:
                 samples.append({'scenario': per_text[n].strip().split('\n'), 'real_trace': r})
+        # every explored schedule of the racing pushes is replayed on the Lean race model (Unimock.raceStep):
+        # final chain order (= release order at teardown), try_insert attempts per thread, every reference on its own node
+        race_bad = []
+        if race_rows:
+            from .. import macrocheck as mc
+            pars = {}
+            for nme in set(r[0] for r in race_rows):
+                mm = re.search(r'par threads=(\d+) per=(\d+) pre=(\d+)', per_text.get(nme, ''))
+                pars[nme] = mm.groups() if mm else None
+            inp = ''.join(f"racecase {i} threads={pars[r[0]][0]} per={pars[r[0]][1]} pre={pars[r[0]][2]} picks={r[1]}\n" for i, r in enumerate(race_rows) if pars[r[0]])
+            mo = mc.parse_items(subprocess.run([DRIVER], input=inp, capture_output=True, text=True, timeout=3000).stdout)
+            for i, r in enumerate(race_rows):
+                if not pars[r[0]]:
+                    continue
+                want = f"order={r[2]} attempts={r[3]} unfinished=0 stray=0 refs=true"
+                got = (mo.get(str(i)) or ['?'])[0]
+                if r[4] != '0' or got != want:
+                    race_bad.append((r[0], r[1], f"real {want} othertags={r[4]}; model {got}"))
+        if not spec_bad and race_bad:
+            (n, picks, d) = race_bad[0]
+            path = engine.write_replay(self.prop, 'tie', per_text[n] + f"# schedule picks={picks}\n# {d}\n", [f"racing pushes: real chain and Unimock.raceStep disagree on {len(race_bad)} schedules (the oracle found every reference intact)"])
+            rep.violation(path, f"value-chain race model/code correspondence broken on {n} picks={picks}: {d}"[:400], no_input=True)
+        rep.coverage['race_schedules_replayed_on_model'] = len(race_rows)
         for (n, why) in spec_bad[:2]:
             path = engine.write_replay(self.prop, 'spec', per_text[n], [f"property C13 violated by the real code: {why}", f"replay: ./check C13 --replay <this file>"])
             rep.violation(path, f"scenario {n}: {why}"[:400])
